@@ -57,6 +57,30 @@ def register(R):
     warn("STEPD_alpha_warning", "%s.stepd:STEPD.update" % CD, "alpha_warning",
          "self1.alpha_warning <= self2.alpha_warning")
 
+    # ---------------------------------------------------------------- C02: update() is blind to the running index
+    # two runs from the same epoch state that differ only in how many samples the detector has seen over its lifetime
+    # (and in the retraining indices, shifted accordingly): the update leaves the same epoch state, the same drift state,
+    # raises alike, and the retraining indices stay the same distance from the running index.  With reset() == __init__
+    # (below) this is the simulation step of "after a drift the detector behaves like a fresh one, indices shifted".
+    def recs_shift(k):
+        a, b = "self1._retraining_recs[%d]" % k, "self2._retraining_recs[%d]" % k
+        return ("((%s is None) == (%s is None)) and implies(%s is not None and %s is not None, %s - self1._total_samples == %s - self2._total_samples)"
+                % (a, b, a, b, a, b))
+
+    def index_free(name, q, has_recs=True, extra=()):
+        free = ["_total_samples"] + (["_retraining_recs"] if has_recs else []) + list(extra)
+        args = ", ".join(repr(f) for f in free)
+        R.relational(name, function=q, tags=("C02",), vary=list(free),
+                     requires=["same_except(self1, self2, %s)" % args, SAME_Y] + ([recs_shift(0), recs_shift(1)] if has_recs else []),
+                     ensures=["raised1 == raised2", "same_except(self1, self2, %s)" % args,
+                              "self1._total_samples - old(self1._total_samples) == self2._total_samples - old(self2._total_samples)"]
+                             + ([recs_shift(0), recs_shift(1)] if has_recs else []))
+    index_free("DDM_index_free", "%s.ddm:DDM.update" % CD)
+    index_free("EDDM_index_free", "%s.eddm:EDDM.update" % CD)
+    index_free("STEPD_index_free", "%s.stepd:STEPD.update" % CD)
+    index_free("PageHinkley_index_free", "%s.page_hinkley:PageHinkley.update" % CH, has_recs=False)
+    index_free("CUSUM_index_free", "%s.cusum:CUSUM.update" % CH, has_recs=False)
+
     # ---------------------------------------------------------------- C02: reset() == freshly constructed
     def fresh(name, cls_q, params, epoch_fields, carry=(), index=("_total_samples",)):
         cname = cls_q.split(":")[1]
